@@ -160,7 +160,7 @@ func toToolsNode(node *ToolsNode, opts ...GraphAddNodeOpt) (*graphNode, *graphAd
 }
 
 func toLambdaNode(node *Lambda, opts ...GraphAddNodeOpt) (*graphNode, *graphAddNodeOpts) {
-	if isNilComponent(node) {
+	if isNilComponent(node) || node.executor == nil { // nil, or a Lambda value not built by one of the constructors
 		return nilNode(opts...)
 	}
 	info, options := getNodeInfo(opts...)
